@@ -252,12 +252,17 @@ def setup_budget():
             continue
         out = nat.run(tag[None], dep[None], unary_penalty=0.5, use_beta=False, pruning_size=1, nbest=2, max_step=max_step)
         want = 1 if name in ('vv', 'hard') else 0
-        if int(out['status'][0]) != want:
-            raise boot.HarnessError(f'sentence pool does not behave as designed on parse_sentence itself: {name} -> status {out["status"][0]}')
+        got, nres = int(out['status'][0]), int(out['nres'][0])
+        if got == 0 and nres == 0:
+            # not a flaw of the pool design: parse_sentence says "parsed" and hands over no tree at all
+            DESIGN_VIOLATIONS.append((name, f'parse_sentence reports success for sentence {name!r} without delivering any tree (a sentence that cannot be parsed must be reported as failed)'))
+        elif got != want:
+            raise boot.HarnessError(f'sentence pool does not behave as designed on parse_sentence itself: {name} -> status {got}')
     return max_step, pops
 
 
 _state_log = []
+DESIGN_VIOLATIONS = []
 
 
 def g3_binary(x, y):       # module-level (picklable) callbacks for the real multiprocessing.Pool run
@@ -644,6 +649,8 @@ def check(tier, seed):
         shards += [dict(batches=blk, max_step=10000000, pops={}, tier=tier, scenario=['amb', nb]) for blk in core.chunked(ab, max(1, len(ab) // 8))]
     SCENARIO[:] = ['g3']
     st = core.pmap(explore_batches, shards)
+    for name, what in DESIGN_VIOLATIONS:
+        st.violation(f'engine/no_result/{name}', what, engine='batch', batch=[name], processes=1, max_chunk_size=20, schedule=[], max_step=max_step, scenario=['g3'])
     SCENARIO[:] = ['g3']
     st.merge(core.pmap(explore_ties, [(nb, lo, lo + 8) for nb in (1, 2) for lo in range(0, 64, 8)]))
     st.merge(core.pmap(explore_big, [(tier, w) for w in ('forward', 'reversed', 'rotated', 'interleaved')]))
